@@ -65,21 +65,21 @@ func (sc c11Scenario) String() string {
 
 // what one run observed
 type c11Obs struct {
-	labels    []string
-	calls     []int // 0 not started, 1 nil error, 2 error, 3 hung
-	callLat   []time.Duration
-	subClosed []bool
-	subRead   []int
-	subEarly  []bool // registered before the fault
-	cbEarly   []bool
-	cbCount   []int
+	labels         []string
+	calls          []int // 0 not started, 1 nil error, 2 error, 3 hung
+	callLat        []time.Duration
+	subClosed      []bool
+	subRead        []int
+	subEarly       []bool // registered before the fault
+	cbEarly        []bool
+	cbCount        []int
 	pendingAtFault int
-	replied   []bool // reply frame completely delivered before the fault
-	early     []bool // ... and before the call's Write returned
-	payloadOK []bool
-	fail      []string
-	opsTotal  int
-	aborted   string
+	replied        []bool // reply frame completely delivered before the fault
+	early          []bool // ... and before the call's Write returned
+	payloadOK      []bool
+	fail           []string
+	opsTotal       int
+	aborted        string
 }
 
 const (
